@@ -184,13 +184,28 @@ func (bs *filesystemPartStore) PutPart(ctx context.Context, tx database.Tx, part
 		return nil
 	}
 
-	f, err := os.OpenFile(filename, os.O_CREATE|os.O_TRUNC|os.O_WRONLY, 0o600)
+	// Without a transaction the part is still published atomically: it is
+	// written to a temporary file and renamed into place once complete. Writing
+	// the final file in place would truncate committed content the moment the
+	// call starts (a stale outbox replay whose source entry is already gone
+	// would leave an empty part) and would let concurrent readers see a
+	// half-written mixture of old and new bytes.
+	tempFile, err := os.CreateTemp(bs.root, "."+filepath.Base(filename)+".*.tmp")
 	if err != nil {
 		return err
 	}
-	defer f.Close()
-	_, err = ioutils.Copy(f, reader)
-	if err != nil {
+	tempName := tempFile.Name()
+	if _, err = ioutils.Copy(tempFile, reader); err != nil {
+		_ = tempFile.Close()
+		_ = os.Remove(tempName)
+		return err
+	}
+	if err = tempFile.Close(); err != nil {
+		_ = os.Remove(tempName)
+		return err
+	}
+	if err = os.Rename(tempName, filename); err != nil {
+		_ = os.Remove(tempName)
 		return err
 	}
 
